@@ -87,6 +87,9 @@ def vivifying_lookups(repo, rep):
 
 
 def run(repo, rep, tier):
+    rep.rule("R-C18-7", "(shared with C07) nothing in the Python wrapper of the native routine outlives a call: no function-static or file-scope object in specpart_wrap.c other than the method / module tables")
+    from . import cnative as _cn
+    _cn.wrapper_state(_cn.wrap(repo), rep, "R-C18-7")
     rep.rule("R-C18-1", "classes registered as xarray accessors (one cached instance per object) and Partition keep no "
                         "state derived from the wrapped object: the only instance attributes are the wrapped reference "
                         "and constants set in __init__; no memoising decorator")
